@@ -85,7 +85,7 @@ RExpr(e) ==
 RExprList(es, i, trail) ==
   IF i > Len(es) THEN <<>>
   ELSE WithGap(RExpr(es[i]), "may0")
-       \o (IF i < Len(es) THEN Tok(",", "may1") ELSE IF trail /\ Len(es) >= 2 THEN Tok(",", "may0") ELSE <<>>)
+       \o (IF i < Len(es) THEN Tok(",", "may1") ELSE IF trail THEN Tok(",", "may0") ELSE <<>>)
        \o RExprList(es, i + 1, trail)
 
 RArgs(args, i) ==
